@@ -10,24 +10,34 @@ from vp.refs import index_model as M
 
 ID = 'C18'
 LEVEL = 'exploration'
-RULE = ('every sequence (order matters) of n <= N entries drawn with repetition from a menu of \\index entry ASTs '
-        '(1-3 levels, sort@display, |see |seealso |textbf, quoted ! @ | ", mixed case, accent, digit, underscore, '
+RULE = ('family seq: every sequence (order matters) of n <= N entries drawn with repetition from a menu of \\index entry '
+        'ASTs (1-3 levels, sort@display, |see |seealso |textbf, quoted ! @ | ", mixed case, accents, digit, underscore, '
         'ligature initial), printed into an article with two sections (the first k entries in section One, the rest '
         'in section Two; every k in 0..n for n <= 3 (quick, n = 3: k in {0, 1, 3}), k = n//2 for n >= 4) followed by '
-        '\\printindex (and by a theindex environment for short sequences); for each parsed document the tree under '
-        'the index node is compared with the reference builder and `groups` is evaluated for index-columns 1..4; '
-        'blocks = (form, n, first two entries) (disjoint); non-trivial = at least one entry; distinct = distinct '
-        '(form, sequence, k); outcomes = distinct observed (tree, groups)')
+        '\\printindex, by an empty theindex environment, or by a theindex environment with hand-written items; '
+        'family via: every sequence of n <= 2 (thorough 3) of (entry, way of writing it), the ways being inline and '
+        'through a preamble macro defined while a subset of ! @ | " has category letter (\\makeatletter, \\catcode); '
+        'family range: sequences of n <= 3 over range openers/closers |( |) |(textbf |)textbf and plain entries; '
+        'family place: sequences of n <= 2 (thorough 3) of (entry, place), places = text, footnote, figure caption, '
+        'subsection title, preamble; family split: one letter group of m <= 6 (thorough 8) entries with every weight '
+        'vector in {1,2,3}^m (weight = 1 + sub-entries), index-columns 1..m_max+2; for each parsed document the tree '
+        'under the index node is compared with the reference builder and `groups` is evaluated for index-columns 1..4; '
+        'blocks = (family, n, first entries) (disjoint); non-trivial = at least one entry; distinct = distinct '
+        '(family, form, sequence with ways and places, k); outcomes = distinct observed (tree, groups)')
 ASSUMPTIONS = [
     'strict collation key = Unicode Collation Algorithm as implemented by pyuca.Collator (DUCET 10.0); the transliteration '
     'used for headings is the unidecode package; both are third-party code, not plasTeX',
     'an entry without an explicit sort key is sorted by the text of its displayed key (plasTeX has no raw-string keys)',
     'the relative order of adjacent siblings whose collation keys are equal is not judged',
-    'page references are identified by the \\index node they point to (its rank in document order), its section, '
-    'its see/seealso flags, its format element and the ordinal text appended to it',
+    'page references are identified by the \\index node they point to (its rank in document order, preamble first), '
+    'its section (the subsection whose title contains it; none in the preamble), its see/seealso flags, its format '
+    'element and the ordinal text appended to it',
+    'makeindex reads the .idx file as characters: the category codes under which an \\index argument was tokenised '
+    '(macro body defined under \\makeatletter or \\catcode changes) do not change its meaning',
+    'a range opener/closer is an ordinary reference of its line; the ( or ) it may show next to its ordinal is not judged',
     'column split: exactly index-columns columns, concatenation = the group in order, empty columns only trailing; '
     'balance of the columns is not part of the statement and only counted (counter split_needlessly_empty_column)',
-    'ranges |( |), empty keys and special characters inside braces are outside the menu',
+    'empty keys, special characters inside braces, specials made active or space are outside the menu',
 ]
 
 FALLBACK = 'C18.COLLATOR_FALLBACK'
@@ -67,27 +77,103 @@ MENU = [
     E(P('Gamma', sort='gamma', src='\\emph{Gamma}', mark='emph')),           # 19 same sort key and text as 5, other markup
     E(P('_zeta')),                                                        # 20 second entry of the underscore group
     E(P('M\u00fcller', src='M\\"uller')),                                 # 21 accent macro whose name is the quote character
+    # only used by the families 'range' and 'place'
+    E(P('alpha'), fmt=['(']),                                             # 22 range opener
+    E(P('alpha'), fmt=[')']),                                             # 23 range closer
+    E(P('alpha'), fmt=['(textbf']),                                       # 24
+    E(P('alpha'), fmt=[')textbf']),                                       # 25
+    E(P('alpha'), P('sub'), fmt=['(']),                                   # 26
+    E(P('foo', sort='')),                                                 # 27 empty sort key: @foo
 ]
 DESIGN_MENU = tuple(range(14))
+BASE_MENU = tuple(range(22))                      # the sequence families draw from entries 0..21
 FULL_MENU = tuple(range(len(MENU)))
 MARKS = ('textbf', 'emph', 'textit', 'texttt')
 
-PRE = ('\\documentclass{article}\n\\usepackage{makeidx}\n\\makeindex\n\\begin{document}\n')
-FORMS = {'printindex': '\\printindex\n', 'theindex': '\\begin{theindex}\\end{theindex}\n'}
+PRE = '\\documentclass{article}\n\\usepackage{makeidx}\n\\makeindex\n'
+FORMS = {'printindex': '\\printindex\n', 'theindex': '\\begin{theindex}\\end{theindex}\n',
+         # a hand-written index body is thrown away and replaced by the generated entries
+         'theindex_items': '\\begin{theindex}\\item old 1 \\subitem sub 2 \\indexspace \\item two 3\\end{theindex}\n'}
+FORM_TAG = {'printindex': 'printindex', 'theindex': 'theindex', 'theindex_items': 'theindex'}
+
+# How an occurrence is written: [via, place]
+#   via   'inline'            \index{...} where it stands
+#         'mac:<chars>'       \zzix<x>{} , a macro defined in the preamble while <chars> (a subset of ! @ | ") have
+#                             category 11 (letter): @ through \makeatletter ... \makeatother, the others through
+#                             \catcode`\!=11 ... \catcode`\!=12 ; 'mac:' = defined under the normal categories
+#   place 'text' | 'footnote' | 'caption' (of a figure) | 'title' (of a \subsection) | 'preamble' (before \begin{document})
+VIAS_QUICK = ['inline', 'mac:', 'mac:@', 'mac:!@|"']
+VIAS_ALL = VIAS_QUICK + ['mac:!', 'mac:|', 'mac:"']
+PLACES = ['text', 'footnote', 'caption', 'title', 'preamble']
+DEFAULT_OCC = ['inline', 'text']
 
 
-def source(specs, split, form, marker='wq'):
-    out = [PRE, '\\section{One}\n']
+def _macname(i):
+    return '\\zzix' + 'abcdefghij'[i]
+
+
+def _definition(i, spec, via):
+    letters = via[4:]
+    body = '\\newcommand%s{\\index{%s}}' % (_macname(i), M.spell(spec))
+    pre, post = '', ''
+    for ch in letters:
+        if ch == '@':
+            pre, post = pre + '\\makeatletter ', '\\makeatother ' + post
+        else:
+            pre, post = pre + '\\catcode`\\%s=11\\relax ' % ch, '\\catcode`\\%s=12\\relax ' % ch + post
+    return pre + body + post + '\n'
+
+
+def layout(specs, split, occ):
+    """-> (order, sections): the sequence positions in document order (preamble first) and, per sequence position,
+    the title of the section the \\index node must belong to (None before the first section)."""
+    n = len(specs)
+    occ = occ or [DEFAULT_OCC] * n
+    order = [i for i in range(n) if occ[i][1] == 'preamble'] + [i for i in range(n) if occ[i][1] != 'preamble']
+    return order, occ
+
+
+def source(specs, split, form, marker='wq', occ=None):
+    """-> (LaTeX source, expected section title per sequence position)"""
+    n = len(specs)
+    order, occ = layout(specs, split, occ)
+    calls = []
+    pre = [PRE]
     for i, s in enumerate(specs):
+        if occ[i][0] == 'inline':
+            calls.append('\\index{%s}' % M.spell(s))
+        else:
+            pre.append(_definition(i, s, occ[i][0]))
+            calls.append(_macname(i) + '{}')
+    sections = [None] * n
+    for i in range(n):
+        if occ[i][1] == 'preamble':
+            pre.append('%s\n' % calls[i])
+    out = pre + ['\\begin{document}\n', '\\section{One}\n']
+    cur = 'One'
+    for i in range(n):
         if i == split:
             out.append('\\section{Two}\n')
-        out.append('%s%d \\index{%s}\n' % (marker, i, M.spell(s)))
-    if split >= len(specs):
+            cur = 'Two'
+        place = occ[i][1]
+        if place == 'preamble':
+            continue
+        if place == 'text':
+            out.append('%s%d %s\n' % (marker, i, calls[i]))
+        elif place == 'footnote':
+            out.append('%s%d\\footnote{fn %s}\n' % (marker, i, calls[i]))
+        elif place == 'caption':
+            out.append('\\begin{figure}%s%d\\caption{cap %s}\\end{figure}\n' % (marker, i, calls[i]))
+        elif place == 'title':
+            cur = 'S%s%d' % (marker, i)
+            out.append('\\subsection{%s %s}\n' % (cur, calls[i]))
+        sections[i] = cur
+    if split >= n:
         out.append('\\section{Two}\n')
     out.append('%sz\n' % marker)
     out.append(FORMS[form])
     out.append('\\end{document}\n')
-    return ''.join(out)
+    return ''.join(out), sections
 
 
 # ---------------------------------------------------------------------------------------- observation
@@ -96,7 +182,7 @@ def _plain(x):
     return None if x is None else ''.join(x)
 
 
-def _sub(node, rank):
+def _sub(node, rank, odd):
     out = []
     for c in node:
         key = c.key
@@ -107,95 +193,132 @@ def _sub(node, rank):
             kind = 'see' if p.see else 'seealso' if p.seealso else 'normal'
             if (kind == 'normal') != bool(p.normal):
                 kind += '?'
+            # the destination object stands in for the \index node towards the renderers
+            if p.nodeName != 'index' or not isinstance(str(p), str):
+                odd.append('page reference does not proxy its \\index node')
+            if kind != 'normal' and p.url is not None:
+                odd.append('cross reference with a url')
             fmt, shown = None, None
             kids = list(n.childNodes)
-            if len(kids) == 1:
-                k = kids[0]
-                if k.nodeType == k.TEXT_NODE:
-                    shown = _plain(k)
-                else:
-                    fmt, shown = _plain(k.nodeName), _plain(k.textContent)
+            if kids and all(k.nodeType == k.TEXT_NODE for k in kids):
+                # "(" / ")" of a range opener / closer next to the ordinal are not judged
+                shown = ''.join(_plain(k) for k in kids).strip('()')
+            elif len(kids) == 1:
+                fmt, shown = _plain(kids[0].nodeName), _plain(kids[0].textContent)
             else:
-                shown = 'children:%d' % len(kids)
+                shown = 'children:%s' % '+'.join(_plain(k.nodeName) for k in kids)
             pages.append([rank.get(id(n), -1), kind, fmt, shown])
         ident = (_plain(c.sortkey) if isinstance(c.sortkey, str) else repr(c.sortkey), _plain(key.textContent),
                  marks[0] if len(marks) == 1 else (None if not marks else '+'.join(marks)))
         if c.parentNode is not node:
             ident = ident + ('parentNode mismatch',)
-        out.append([ident, pages, _sub(c, rank)])
+        if not isinstance(repr(c), str):
+            odd.append('repr of an index line')
+        out.append([ident, pages, _sub(c, rank, odd)])
     return out
 
 
-def observe(specs, split, form, marker='wq'):
-    """-> dict(tree, sections, nentries, groups{cols: [(title, id, [[positions]])]})  |  'raises:...'"""
+def observe(specs, split, form, marker='wq', occ=None, cols_list=(1, 2, 3, 4)):
+    """-> dict(tree, sections, nentries, flags, odd, groups{cols: [(title, id, [[positions]])]})  |  'raises:...'
+    Occurrences are numbered in document order (rank of the \\index node)."""
     from plasTeX.TeX import TeX
     state.reset()
     try:
         with core.time_limit(20.0):
             tex = TeX()
             tex.ownerDocument.context.warnOnUnrecognized = False
-            tex.input(source(specs, split, form, marker))
+            tex.input(source(specs, split, form, marker, occ)[0])
             doc = tex.parse()
-            nodes = doc.getElementsByTagName(form)
+            nodes = doc.getElementsByTagName(FORM_TAG[form])
             if len(nodes) != 1:
                 return 'index-nodes:%d' % len(nodes)
             idx = nodes[0]
             inodes = doc.getElementsByTagName('index')
             rank = {id(n): i for i, n in enumerate(inodes)}
             sections = []
+            odd = []
             for n in inodes:
                 sec = n.currentSection
                 t = sec.attributes.get('title') if sec is not None and sec.attributes else None
-                sections.append(_plain(t.textContent) if t is not None else None)
-            tree = _sub(idx, rank)
+                sections.append(''.join(_plain(t.textContent).split()) if t is not None else None)
+                if n.textContent != '':
+                    odd.append('\\index node contributes text %r' % _plain(n.textContent))
+            tree = _sub(idx, rank, odd)
             top = list(idx)
             pos = {id(n): i for i, n in enumerate(top)}
             groups = {}
-            for cols in (1, 2, 3, 4):
+            for cols in cols_list:
                 doc.config['document']['index-columns'] = cols
                 gs = []
                 for g in idx.groups:
                     gs.append((_plain(g.title), _plain(getattr(g, 'id', None)), [[pos.get(id(x), -1) for x in col] for col in g]))
                 groups[cols] = gs
-            return {'tree': tree, 'sections': sections, 'nentries': len(doc.userdata.get('index', [])),
+            flags = []
+            for e in doc.userdata.get('index', []):
+                flags.append('see' if e.see else 'seealso' if e.seealso else 'normal' if e.normal else '?')
+                if not isinstance(repr(e), str) or not isinstance(str(e), str):
+                    odd.append('repr of an entry')
+            return {'tree': tree, 'sections': sections, 'nentries': len(flags), 'flags': flags, 'odd': sorted(set(odd)),
                     'groups': groups}
     except core.Timeout:
         return 'timeout'
     except Exception as e:
-        return 'raises:%s:%s' % (type(e).__name__, str(e)[:120])
+        import traceback
+        where = traceback.extract_tb(e.__traceback__)[-1]
+        return 'raises:%s:%s @%s' % (type(e).__name__, str(e)[:120], where.name)
 
 
 # ---------------------------------------------------------------------------------------- oracle
+CATSPLIT = 'C18.CATCODE_SPLIT'
+RANGE = 'C18.RANGE_CRASH'
+RANGE_CRASH_OBS = "raises:AttributeError:'NoneType' object has no attribute 'replaceChild' @digest"
+
 TREE_VARIANTS = [((), 'uca', 'tree'), ((FALLBACK,), 'lower', 'tree'), ((TIE,), 'uca', 'flat'),
-                 ((FALLBACK, TIE), 'lower', 'flat')]
+                 ((FALLBACK, TIE), 'lower', 'flat'), ((CATSPLIT,), 'uca', 'flatcat')]
 
 
 def _ck(name):
     return M.uca() if name == 'uca' else M.lower
 
 
-def _model(specs, ckname, builder):
+def _model(specs, ckname, builder, sigs=None):
     ck = _ck(ckname)
+    if builder == 'flatcat':
+        return M.flat_catcode_model(specs, ck, sigs)
     return (M.tree_model if builder == 'tree' else M.flat_model)(specs, ck)
 
 
-def judge(specs, split, form, marker='wq'):
+def judge(specs, split, form, marker='wq', occ=None, cols_list=(1, 2, 3, 4)):
     """-> (verdict, fids, expected, observed, detail, features)"""
     n = len(specs)
-    obs = observe(specs, split, form, marker)
-    strict = _model(specs, 'uca', 'tree')
-    exp = {'tree': strict, 'sections': ['One'] * min(split, n) + ['Two'] * max(0, n - split), 'nentries': n}
+    order, occ = layout(specs, split, occ)
+    src, secs = source(specs, split, form, marker, occ)
+    dspecs = [specs[i] for i in order]                      # document order = numbering of the page references
+    obs = observe(specs, split, form, marker, occ, cols_list)
+    strict = _model(dspecs, 'uca', 'tree')
+    exp = {'tree': strict, 'sections': [secs[i] for i in order], 'nentries': n, 'odd': [],
+           'flags': [s['fmt'][0] if s['fmt'] and s['fmt'][0] in ('see', 'seealso') else 'normal' for s in dspecs]}
     feats = {}
     if isinstance(obs, str):
+        if obs == RANGE_CRASH_OBS and any(M.is_range(s) for s in specs):
+            return 'known', [RANGE], exp, obs, 'building the index raises for a range opener/closer (|( |))', feats
         return 'violation', [], exp, obs, 'parsing the document or building the index failed', feats
     if obs['nentries'] != n:
         return 'violation', [], exp, obs, 'document records %d index entries, %d were written' % (obs['nentries'], n), feats
     if obs['sections'] != exp['sections']:
         return 'violation', [], exp, obs, 'an \\index node is not in the section it was written in', feats
+    if obs['flags'] != exp['flags']:
+        return 'violation', [], exp, obs, 'see/seealso/normal flags of the recorded entries', feats
+    if obs['odd']:
+        return 'violation', [], exp, obs, '; '.join(obs['odd']), feats
+    sigs = [M.letter_sig(specs[i], occ[i][0][4:] if occ[i][0] != 'inline' else '') for i in order]
+    anysig = any(g for sg in sigs for g in sg)
     fids = None
     for devs, ckname, builder in TREE_VARIANTS:
+        if builder == 'flatcat' and not anysig:
+            continue
         ck = _ck(ckname)
-        model = strict if not devs else _model(specs, ckname, builder)
+        model = strict if not devs else _model(dspecs, ckname, builder, sigs)
         if M.canon(obs['tree'], ck) == M.canon(model, ck):
             fids = list(devs)
             break
@@ -207,7 +330,7 @@ def judge(specs, split, form, marker='wq'):
     g_dev = None
     exp['groups'] = g_strict
     multi = False
-    for cols in (1, 2, 3, 4):
+    for cols in cols_list:
         gs = obs['groups'][cols]
         heads = [(t, i, [x for c in columns for x in c]) for (t, i, columns) in gs]
         if heads != g_strict:
@@ -230,6 +353,7 @@ def judge(specs, split, form, marker='wq'):
                 return 'violation', [], exp, obs, 'index-columns=%d group %r: %s' % (cols, t, msg), feats
             if len(members) >= cols and any(not c for c in columns):
                 feats['split_needlessly_empty_column'] = 1
+            feats['split:size=%d,cols=%d' % (len(members), cols)] = 1
     if multi:
         fids.append(MULTI)
     titles = [t for t, i, m in (g_dev if multi else g_strict)]
@@ -242,10 +366,9 @@ def judge(specs, split, form, marker='wq'):
 
 def replay(case):
     specs = case['specs']
-    v, fids, exp, obs, detail, feats = judge(specs, case['split'], case.get('form', 'printindex'),
-                                             case.get('marker', 'wq'))
-    res = {'verdict': v, 'expected': exp, 'observed': obs, 'detail': detail,
-           'input': source(specs, case['split'], case.get('form', 'printindex'), case.get('marker', 'wq'))}
+    args = (specs, case['split'], case.get('form', 'printindex'), case.get('marker', 'wq'), case.get('occ'))
+    v, fids, exp, obs, detail, feats = judge(*args, cols_list=tuple(case.get('cols', (1, 2, 3, 4))))
+    res = {'verdict': v, 'expected': exp, 'observed': obs, 'detail': detail, 'input': source(*args)[0]}
     if v == 'known':
         f = core.Findings()
         notopen = [x for x in fids if not f.is_open(x)]
@@ -263,13 +386,15 @@ def _splits(n, mode):
     return [n // 2]
 
 
-def _features(rep, specs, obs_tree):
+def _features(rep, specs, occ, obs_tree):
     if any(len(s['lv']) > 1 for s in specs):
         rep.count('has_subentry')
     if any(lv[0] is not None for s in specs for lv in s['lv']):
         rep.count('has_sortkey')
     if any(s['fmt'] for s in specs):
         rep.count('has_format')
+    if any(M.is_range(s) for s in specs):
+        rep.count('has_range')
 
     def walk(ch):
         for ident, pages, sub in ch:
@@ -278,46 +403,157 @@ def _features(rep, specs, obs_tree):
             if walk(sub):
                 return True
         return False
-    if walk(obs_tree):
+    merged = walk(obs_tree)
+    if merged:
         rep.count('merged_line')
+    if occ:
+        vias = set(o[0] for o in occ)
+        if len(vias) > 1 and 'inline' in vias:
+            rep.count('macro_and_inline')
+            for i, a in enumerate(specs):
+                for j, b in enumerate(specs):
+                    if i < j and a == b and occ[i][0] != occ[j][0] and merged:
+                        rep.count('same_entry_macro_and_inline_merged')
+                        return
+        for o in occ:
+            if o[1] != 'text':
+                rep.count('place:' + o[1])
+
+
+def _one(rep, key, specs, k, form, marker, occ, cols_list=(1, 2, 3, 4), family='seq'):
+    v, fids, exp, obs, detail, feats = judge(specs, k, form, marker, occ, cols_list)
+    case = {'form': form, 'specs': specs, 'split': k, 'marker': marker}
+    if occ:
+        case['occ'] = occ
+    if tuple(cols_list) != (1, 2, 3, 4):
+        case['cols'] = list(cols_list)
+    out = (repr(M.canon(obs['tree'], M.lower)), repr(obs['groups'])) if isinstance(obs, dict) else obs
+    rep.case(key=key, nontrivial=len(specs) > 0, outcome=out)
+    rep.count('documents')
+    rep.count('documents:' + family)
+    rep.count('group_evaluations', len(cols_list))
+    for f in feats:
+        rep.count(f)
+    if isinstance(obs, dict):
+        _features(rep, specs, occ, obs['tree'])
+    if v == 'ok':
+        rep.count('strict_ok')
+        if len(specs) >= 2:
+            rep.sample({'index': [M.spell(s) for s in specs], 'split': k, 'how': occ,
+                        'tree': M.canon(obs['tree'], M.lower), 'groups2': obs['groups'].get(2)})
+    elif v == 'known':
+        rep.count('explained_by:' + '+'.join(x.split('.')[1] for x in fids))
+        for f in fids:
+            rep.known_finding(f, case, detail + ' | \\index: ' + ' , '.join(M.spell(s) for s in specs)
+                              + (' | written: %r' % (occ,) if occ else ''))
+    else:
+        rep.violation(case, exp, obs, detail)
+
+
+def _weighted(ws):
+    """One letter group: entry j is 'a'+letter with ws[j]-1 sub-entries (so its weight in the column split is ws[j])."""
+    specs = []
+    for j, w in enumerate(ws):
+        name = 'a' + 'bcdefghijk'[j]
+        specs.append(E(P(name)))
+        for t in range(w - 1):
+            specs.append(E(P(name), P('s' + 'xyz'[t])))
+    return specs
 
 
 def run_block(block):
-    form, n, prefix, menu, mode, marker = block
+    kind = block[0]
     rep = core.Report()
     M.uca()
-    for tail in itertools.product(menu, repeat=n - len(prefix)):
-        seq = tuple(prefix) + tail
-        specs = [MENU[i] for i in seq]
-        for k in _splits(n, mode):
-            v, fids, exp, obs, detail, feats = judge(specs, k, form, marker)
-            case = {'form': form, 'specs': specs, 'split': k, 'marker': marker}
-            out = (repr(M.canon(obs['tree'], M.lower)), repr(obs['groups'])) if isinstance(obs, dict) else obs
-            rep.case(key=(form, seq, k), nontrivial=n > 0, outcome=out)
-            rep.count('documents')
-            rep.count('group_evaluations', 4)
-            for f in feats:
-                rep.count(f)
-            if isinstance(obs, dict):
-                _features(rep, specs, obs['tree'])
-            if v == 'ok':
-                rep.count('strict_ok')
-                if n >= 2:
-                    rep.sample({'index': [M.spell(s) for s in specs], 'split': k,
-                                'tree': M.canon(obs['tree'], M.lower), 'groups2': obs['groups'][2]})
-            elif v == 'known':
-                rep.count('explained_by:' + '+'.join(x.split('.')[1] for x in fids))
-                for f in fids:
-                    rep.known_finding(f, case, detail + ' | \\index: ' + ' , '.join(M.spell(s) for s in specs))
-            else:
-                rep.violation(case, exp, obs, detail)
+    if kind == 'seq':
+        _, form, n, prefix, menu, mode, marker = block
+        for tail in itertools.product(menu, repeat=n - len(prefix)):
+            seq = tuple(prefix) + tail
+            specs = [MENU[i] for i in seq]
+            for k in _splits(n, mode):
+                _one(rep, (form, seq, k), specs, k, form, marker, None)
+    elif kind == 'how':
+        # items = (menu index, via, place); every sequence of n items
+        _, fam, n, prefix, items, mode, marker = block
+        for tail in itertools.product(range(len(items)), repeat=n - len(prefix)):
+            seq = tuple(prefix) + tail
+            specs = [MENU[items[i][0]] for i in seq]
+            occ = [[items[i][1], items[i][2]] for i in seq]
+            for k in _splits(n, mode):
+                _one(rep, (fam, tuple(items[i] for i in seq), k), specs, k, 'printindex', marker, occ, family=fam)
+    elif kind == 'split':
+        _, m, first, maxw, cols_list, marker = block
+        for rest in itertools.product(range(1, maxw + 1), repeat=m - 1):
+            ws = (first,) + rest
+            specs = _weighted(ws)
+            _one(rep, ('split', ws), specs, len(specs) // 2, 'printindex', marker, None, cols_list, family='split')
     return rep.close_block()
 
 
 def _blocks(form, n, menu, mode, marker):
     if n <= 2:
-        return [(form, n, (), menu, mode, marker)]
-    return [(form, n, (a, b), menu, mode, marker) for a in menu for b in menu]
+        return [('seq', form, n, (), menu, mode, marker)]
+    return [('seq', form, n, (a, b), menu, mode, marker) for a in menu for b in menu]
+
+
+def _how_blocks(fam, n, items, mode, marker):
+    if n <= 1:
+        return [('how', fam, n, (), items, mode, marker)]
+    return [('how', fam, n, (a,), items, mode, marker) for a in range(len(items))]
+
+
+VIA_MENU = (0, 3, 5, 9, 10, 11, 14, 15)          # entries whose spelling uses ! @ | " (and a plain one)
+RANGE_MENU = (0, 22, 23, 24, 25, 26, 2)
+PLACE_MENU = (0, 3, 5, 9, 10, 27)
+
+
+def plan(tier, marker):
+    """-> (blocks, bounds-plan)"""
+    quick = tier == 'quick'
+    blocks, desc = [], []
+
+    def seq(form, n, menu, mode):
+        blocks.extend(_blocks(form, n, menu, mode, marker))
+        desc.append({'family': 'seq', 'form': form, 'entries': n, 'menu_size': len(menu), 'splits': mode,
+                     'documents': len(menu) ** n * len(_splits(n, mode))})
+
+    def how(fam, n, items, mode):
+        blocks.extend(_how_blocks(fam, n, items, mode, marker))
+        desc.append({'family': fam, 'entries': n, 'items': len(items), 'splits': mode,
+                     'documents': len(items) ** n * len(_splits(n, mode))})
+
+    for n in range(0, 4):
+        seq('printindex', n, BASE_MENU, 'ends' if quick and n == 3 else 'all')
+    for n in range(0, 3 if quick else 4):
+        seq('theindex', n, BASE_MENU, 'all' if n <= 2 else 'mid')
+    for n in range(1, 3):
+        seq('theindex_items', n, BASE_MENU if n < 2 else DESIGN_MENU, 'mid')
+    if not quick:
+        seq('printindex', 4, BASE_MENU, 'mid')
+        seq('printindex', 5, DESIGN_MENU, 'mid')
+    # entries written through macros defined under other category codes, mixed with inline ones
+    vias = VIAS_QUICK if quick else VIAS_ALL
+    for n in (1, 2):
+        how('via', n, [(m, v, 'text') for m in VIA_MENU for v in vias], 'all')
+    if not quick:
+        how('via', 3, [(m, v, 'text') for m in VIA_MENU for v in ('inline', 'mac:@', 'mac:!@|"')], 'mid')
+    # range openers / closers
+    for n in (1, 2, 3):
+        how('range', n, [(m, 'inline', 'text') for m in RANGE_MENU], 'mid')
+    # entries in footnotes, captions, section titles and the preamble (and one written through a macro there)
+    pitems = [(m, 'inline', pl) for m in PLACE_MENU for pl in PLACES] + [(5, 'mac:@', pl) for pl in PLACES[1:]]
+    for n in (1, 2):
+        how('place', n, pitems, 'all')
+    if not quick:
+        how('place', 3, [(m, 'inline', pl) for m in PLACE_MENU[:4] for pl in PLACES], 'mid')
+    # column split: one letter group of m entries with every weight vector, more columns than entries included
+    maxm = 6 if quick else 8
+    for m in range(1, maxm + 1):
+        for first in (1, 2, 3):
+            blocks.append(('split', m, first, 3, tuple(range(1, maxm + 3)), marker))
+        desc.append({'family': 'split', 'group_size': m, 'weights': '{1,2,3}^%d' % m, 'index_columns': [1, maxm + 2],
+                     'documents': 3 ** m})
+    return blocks, desc
 
 
 def run(tier, seed, rep):
@@ -326,25 +562,14 @@ def run(tier, seed, rep):
     if not M.have_uca():
         rep.error('pyuca is not importable: no independent collation key for the strict oracle')
     marker = 'wq' + 'abcdefgh'[seed % 8]
-    quick = tier == 'quick'
-    plan = []                      # (form, n, menu, split mode)
-    for n in range(0, 4):
-        plan.append(('printindex', n, FULL_MENU, 'ends' if quick and n == 3 else 'all'))
-    for n in range(0, 3 if quick else 4):
-        plan.append(('theindex', n, FULL_MENU, 'all' if n <= 2 else 'mid'))
-    if not quick:
-        plan.append(('printindex', 4, FULL_MENU, 'mid'))
-        plan.append(('printindex', 5, DESIGN_MENU, 'mid'))
-    blocks = []
-    bounds = {'menu': [M.spell(s) for s in MENU], 'index_columns': [1, 2, 3, 4], 'plan': []}
-    for form, n, menu, mode in plan:
-        blocks.extend(_blocks(form, n, menu, mode, marker))
-        bounds['plan'].append({'form': form, 'entries': n, 'menu_size': len(menu), 'splits': mode,
-                               'documents': len(menu) ** n * len(_splits(n, mode))})
-    total = sum(p['documents'] for p in bounds['plan'])
-    # big blocks first would starve the tail; rotate only (seed never changes the explored set)
+    blocks, desc = plan(tier, marker)
+    bounds = {'menu': [M.spell(s) for s in MENU], 'index_columns': [1, 2, 3, 4], 'vias': VIAS_ALL, 'places': PLACES,
+              'plan': desc}
+    total = sum(p['documents'] for p in desc)
     blocks = core.rotate(blocks, seed)
     core.merge_all(run_block, blocks, rep)
-    return {'exhaustive': True, 'bounds': bounds, 'blocks': len(blocks), 'planned_documents': total,
-            'floors': {'evaluations': total, 'has_subentry': 1000, 'has_sortkey': 1000, 'has_format': 1000,
-                       'merged_line': 500, 'strict_ok': 500}}
+    floors = {'evaluations': total, 'has_subentry': 1000, 'has_sortkey': 1000, 'has_format': 1000,
+              'merged_line': 500, 'strict_ok': 500, 'same_entry_macro_and_inline_merged': 50, 'macro_and_inline': 500,
+              'place:footnote': 100, 'place:caption': 100, 'place:title': 100, 'place:preamble': 100,
+              'documents:split': 1000, 'documents:range': 50}
+    return {'exhaustive': True, 'bounds': bounds, 'blocks': len(blocks), 'planned_documents': total, 'floors': floors}
